@@ -157,7 +157,11 @@ class Delegate:
 
 class Client:
     def __init__(self, world, name, appid, mode, side, versions=None, dilation=False):
+        self.lazy = mode == "deferred-lazy"      # Deferred API whose application does not ask for messages until later
+        if self.lazy:
+            mode = "deferred"
         self.world, self.name, self.appid, self.mode = world, name, appid, mode
+        self.closed_at = None
         self.events = []           # (kind, value) in the order the application saw them
         self.late = []             # results of get_* calls made at scheduled times: [kind, when, outcome]
         self.api_errors = []       # exceptions escaping API calls: (call, exc)
@@ -184,6 +188,8 @@ class Client:
 
     def ev(self, kind, value):
         self.events.append((kind, value))
+        if kind == "closed" and self.closed_at is None:
+            self.closed_at = self.world.stepno
         self.world.step_events.append((self.name, kind))
 
     # ---- eager Deferred-mode observers: registered at creation so that callback order = event order
@@ -194,7 +200,8 @@ class Client:
                              ("versions", w.get_versions)):
             d = getter()
             d.addCallbacks(lambda v, k=kind: self.ev(k, v), lambda f, k=kind: self.ev(k + "!", f.value))
-        self._next_message()
+        if not self.lazy:
+            self._next_message()
 
     def _next_message(self):
         d = self.w.get_message()
@@ -561,6 +568,14 @@ class MailboxWorld:
         i = act["i"]
         if i + 1 < len(q) and q[i]["type"] == "message" and q[i + 1]["type"] == "message":
             q[i], q[i + 1] = q[i + 1], q[i]
+
+    def _do_HoistS2C(self, act):
+        """The server sends a control response (not a mailbox message) ahead of the message frames queued before it."""
+        q = self.conn(act["k"]).s2c
+        fr = q[act["i"]]
+        if fr["type"] != "message":
+            del q[act["i"]]
+            q.insert(0, fr)
 
     def _do_TamperS2C(self, act):
         """The server alters a message frame that is in flight to the client."""
